@@ -3,7 +3,8 @@
      wf_spec.find_inbound_task_specs (lang/v2/workflows.py)   -> inbound_names
      _prepare_task_executions_cache / t_execs_cache lookups     -> lookup (last row of a name; MAX_SEARCH_DEPTH
                                                                   only bounds the PRE-population, misses are re-read)
-     _possible_route                                            -> possible_route (fuel = Python recursion depth)
+     _possible_route                                            -> possible_route (fuel = Python recursion depth;
+                                                                  `visited` threaded through), possible_route_top
      _get_induced_join_state                                    -> induced
      _get_join_logical_state                                    -> logical
      get_logical_task_state                                     -> logical_task_state
@@ -34,6 +35,8 @@ Arguments Crash {A}.
 
 Definition memn (x : nat) (l : list nat) : bool := existsb (Nat.eqb x) l.
 
+Definition next_or_nil (r : row) : list nat := match rnext r with Some l => l | None => [] end.
+
 (* {t_ex.name: t_ex for t_ex in rows}: the LAST row of a name wins *)
 Fixpoint lookup (rows : list row) (n : nat) : option row :=
   match rows with
@@ -51,40 +54,48 @@ Definition find_task (sp : list task) (n : nat) : option task :=
 Definition inbound_names (sp : list task) (n : nat) : list nat :=
   map tname (filter (fun s => memn n (touts s)) sp).
 
-Definition next_or_nil (r : row) : list nat := match rnext r with Some l => l | None => [] end.
-
-(* _possible_route(task_spec, cache, depth): the loop over inbound specs, `rec` is the recursive call *)
-Fixpoint pr_loop (rec : nat -> nat -> res (bool * nat)) (rows : list row) (t : nat)
-         (ins : list nat) (depth : nat) : res (bool * nat) :=
+(* _possible_route(task_spec, cache, depth, visited): the loop over inbound specs; `rec` is the recursive call;
+   `vis` is the shared, growing `visited` set *)
+Fixpoint pr_loop (rec : list nat -> nat -> nat -> res (bool * nat * list nat)) (rows : list row) (t : nat)
+         (ins : list nat) (depth : nat) (vis : list nat) : res (bool * nat * list nat) :=
   match ins with
-  | [] => Ok (false, depth)
+  | [] => Ok (false, depth, vis)
   | s :: tl =>
     match lookup rows s with
     | None =>
-      match rec s (S depth) with
-      | Ok (true, d) => Ok (true, d)
-      | Ok (false, d) => pr_loop rec rows t tl d
+      match rec vis s (S depth) with
+      | Ok (true, d, v) => Ok (true, d, v)
+      | Ok (false, d, v) => pr_loop rec rows t tl d v
       | OutOfFuel => OutOfFuel
       | Crash => Crash
       end
     | Some r =>
-      if negb (is_completed (rstate r)) then Ok (true, depth)
-      else match rnext r with
-           | None => Crash                      (* [t[0] for t in None] : TypeError *)
-           | Some l => if memn t l then Ok (true, depth) else pr_loop rec rows t tl depth
-           end
+      if negb (is_completed (rstate r)) then Ok (true, depth, vis)
+      else if memn t (next_or_nil r) then Ok (true, depth, vis)       (* `t_ex.next_tasks or []` *)
+      else pr_loop rec rows t tl depth vis
     end
   end.
 
-Fixpoint possible_route (fuel : nat) (sp : list task) (rows : list row) (t : nat) (depth : nat)
-  : res (bool * nat) :=
+Fixpoint possible_route (fuel : nat) (sp : list task) (rows : list row) (vis : list nat) (t : nat) (depth : nat)
+  : res (bool * nat * list nat) :=
   match fuel with
   | O => OutOfFuel                               (* RecursionError *)
   | S f =>
-    match inbound_names sp t with
-    | [] => Ok (true, depth)
-    | ins => pr_loop (possible_route f sp rows) rows t ins depth
-    end
+    if memn t vis then Ok (false, depth, vis)    (* examined already *)
+    else
+      match inbound_names sp t with
+      | [] => Ok (true, depth, t :: vis)
+      | ins => pr_loop (possible_route f sp rows) rows t ins depth (t :: vis)
+      end
+  end.
+
+(* a top-level call: visited=None *)
+Definition possible_route_top (fuel : nat) (sp : list task) (rows : list row) (t : nat) (depth : nat)
+  : res (bool * nat) :=
+  match possible_route fuel sp rows [] t depth with
+  | Ok (b, d, _) => Ok (b, d)
+  | OutOfFuel => OutOfFuel
+  | Crash => Crash
   end.
 
 Inductive ind := IWait | IErr | IRun.
@@ -93,7 +104,7 @@ Inductive ind := IWait | IErr | IRun.
 Definition induced (fuel : nat) (sp : list task) (rows : list row) (j s : nat) : res (ind * nat) :=
   match lookup rows s with
   | None =>
-    match possible_route fuel sp rows s 1 with
+    match possible_route_top fuel sp rows s 1 with
     | Ok (true, d) => Ok (IWait, d)
     | Ok (false, d) => Ok (IErr, d)
     | OutOfFuel => OutOfFuel
